@@ -6,6 +6,8 @@
 #include <fcntl.h>
 #include <limits.h>
 #include <setjmp.h>
+#include <stdarg.h>
+#include <sys/ioctl.h>
 #include <stdio.h>
 #include <stdlib.h>
 #include <string.h>
@@ -65,6 +67,30 @@ extern "C" __attribute__((noreturn)) void exit(int code) noexcept {
   static auto real = (void (*)(int))dlsym(RTLD_NEXT, "exit");
   real(code);
   _exit(code);
+}
+
+// Smart-terminal seam (C20): with VERIF_TTY_COLS=<n> in an invocation's environment, ninja's stdout (the capture file)
+// claims to be a terminal n columns wide: LinePrinter takes its smart path (\r, ESC[K, elided status lines, colours).
+static int g_tty_cols = 0;
+extern "C" int isatty(int fd) {
+  if (nx::g_in_invocation && g_tty_cols > 0 && (fd == 1 || fd == 2)) return 1;
+  static auto real = (int (*)(int))dlsym(RTLD_NEXT, "isatty");
+  return real(fd);
+}
+extern "C" int ioctl(int fd, unsigned long request, ...) {
+  va_list ap;
+  va_start(ap, request);
+  void* arg = va_arg(ap, void*);
+  va_end(ap);
+  if (nx::g_in_invocation && g_tty_cols > 0 && fd == 1 && request == TIOCGWINSZ) {
+    struct winsize* ws = (struct winsize*)arg;
+    memset(ws, 0, sizeof *ws);
+    ws->ws_col = (unsigned short)g_tty_cols;
+    ws->ws_row = 24;
+    return 0;
+  }
+  static auto real = (int (*)(int, unsigned long, void*))dlsym(RTLD_NEXT, "ioctl");
+  return real(fd, request, arg);
 }
 
 static double g_fake_load = 0.0;
@@ -128,8 +154,10 @@ RunResult RunNinja(vfs::Disk* d, const RunConfig& cfg, const std::vector<int>& c
   clearenv();
   setenv("TERM", "dumb", 1);
   g_fake_load = 0.0;
+  g_tty_cols = 0;
   for (auto& kv : cfg.env) {
     if (kv.first == "VERIF_LOADAVG") { g_fake_load = atof(kv.second.c_str()); continue; }
+    if (kv.first == "VERIF_TTY_COLS") { g_tty_cols = atoi(kv.second.c_str()); continue; }
     setenv(kv.first.c_str(), kv.second.c_str(), 1);
   }
 
